@@ -4,7 +4,9 @@ import fcntl, hashlib, json, os, random, shutil, subprocess, sys, tempfile, time
 VERIF = os.path.dirname(os.path.dirname(os.path.dirname(os.path.abspath(__file__))))
 REPO = os.environ.get("RBP_REPO", "/repo")
 CACHE = os.path.join(VERIF, ".cache")
-TARGET = os.path.join(CACHE, "target")
+# one target directory per source tree: cargo keys freshness by package path, and two trees sharing a target directory would
+# leave whichever binary was linked last under the same name
+TARGET = os.path.join(CACHE, "target" if REPO == "/repo" else "target-" + __import__("hashlib").sha256(REPO.encode()).hexdigest()[:10])
 LEAN = os.path.join(VERIF, "lean")
 IMPL = os.path.join(TARGET, "debug", "rusty-blockparser")
 MODEL = os.path.join(LEAN, ".lake", "build", "bin", "rbp-model")
